@@ -235,3 +235,101 @@ func c16NoMustCompileComputed(p *Prog) *RuleResult {
 	}
 	return r
 }
+
+// ---------------------------------------------------------------------------------------------
+// C06/R11 enum-inlining-not-on-write-targets.
+//
+// The printer replaces `E.member` / `E["member"]` by the member's constant when E is a TypeScript
+// enum imported from another module. The replacement is only meaningful where the access is *read*:
+// as the target of an assignment, an update or `delete` it produces `0 /* A */ = 5`. The parser's
+// same-file inlining knows about assignment targets; the print-time inlining has to as well. Rule:
+// the direct inlining sites of printExpr (the EDot and EIndex arms) are conditional on the flags
+// that say the expression is being written or deleted.
+func c06EnumInliningNotOnTargets(p *Prog) *RuleResult {
+	r := NewRule("C06/R11 enum-inlining-not-on-write-targets", "the print-time inlining of cross-module enum members in the EDot / EIndex arms of printExpr is conditional on the access not being an assignment, update or delete target")
+	fn := p.FindFunc("js_printer.(*printer).printExpr")
+	if !r.Anchor("js_printer.(*printer).printExpr", fn != nil) {
+		return r
+	}
+	var flagsParam *ssa.Parameter
+	for _, prm := range fn.Params {
+		if namedTypeName(prm.Type()) == "js_printer.printExprFlags" {
+			flagsParam = prm
+		}
+	}
+	if !r.Anchor("the flags parameter of printExpr", flagsParam != nil) {
+		return r
+	}
+	n := 0
+	eachInstr(fn, func(b *ssa.BasicBlock, in ssa.Instruction) {
+		c, ok := in.(*ssa.Call)
+		if !ok || c.Call.StaticCallee() == nil || !strings.HasPrefix(c.Call.StaticCallee().Name(), "tryToGetImportedEnumValue") {
+			return
+		}
+		// only the sites whose result is printed in place of the access itself: the first argument is
+		// the Target field of the node under the type switch (EDot / EIndex), not of a nested node
+		owner, field, ok := loadedField(c.Call.Args[1])
+		if !ok || field != "Target" || (owner != "js_ast.EDot" && owner != "js_ast.EIndex") {
+			return
+		}
+		// exclude sites inside the template / index sub-cases that look at a *child* node
+		arm := ""
+		for _, f := range factsAt(b) {
+			if ta, ok := f.Cond.(*ssa.Extract); ok && f.True {
+				if t, ok := ta.Tuple.(*ssa.TypeAssert); ok {
+					arm = namedTypeName(t.AssertedType)
+				}
+			}
+		}
+		_ = arm
+		// the printing that follows: the call's block must lead to a printNumber / printQuotedUTF16
+		prints := false
+		for _, later := range instrsAfter(c) {
+			if c2, ok := later.(*ssa.Call); ok && c2.Call.StaticCallee() != nil && (c2.Call.StaticCallee().Name() == "printNumber") && b.Dominates(c2.Block()) {
+				prints = true
+			}
+		}
+		if !prints {
+			return
+		}
+		n++
+		r.Instances++
+		key := fmt.Sprintf("printExpr inlines a cross-module enum member in place of an %s access", strings.TrimPrefix(owner, "js_ast."))
+		// the block that prints the constant must be control dependent on a test of the flags parameter
+		var printBlock *ssa.BasicBlock
+		for _, later := range instrsAfter(c) {
+			if c2, ok := later.(*ssa.Call); ok && c2.Call.StaticCallee() != nil && c2.Call.StaticCallee().Name() == "printNumber" && b.Dominates(c2.Block()) && printBlock == nil {
+				printBlock = c2.Block()
+			}
+		}
+		usesFlags := false
+		for _, ifi := range controlDepIfsTransitive(printBlock) {
+			if !b.Dominates(ifi.Block()) && ifi.Block() != b {
+				continue
+			}
+			var vals []ssa.Value
+			condsOfBoolValue(ifi.Cond, &vals, 0)
+			for _, v := range vals {
+				operandSlice(v, func(x ssa.Value) bool {
+					if x == ssa.Value(flagsParam) {
+						usesFlags = true
+					}
+					if ph, ok := x.(*ssa.Phi); ok && ph.Comment == "flags" {
+						usesFlags = true
+					}
+					return true
+				})
+			}
+		}
+		if usesFlags {
+			r.OK(key, true, "conditional on the flags of the enclosing expression")
+		} else {
+			r.Fail(key, p.Pos(c.Pos()), "the member's constant is printed in place of the access whatever the context: as an assignment, update or delete target the output is `0 /* A */ = 5` (a syntax error), and the enum object the statement meant to modify has been dropped by the linker because every use 'will be inlined'")
+		}
+	})
+	if !r.Anchor("direct enum-inlining sites of printExpr", n >= 2) {
+		return r
+	}
+	r.Floor(2)
+	return r
+}
